@@ -189,25 +189,25 @@ pub fn canary_c14_sink<W: VWrite>(out: &mut W, b: &[u8])
 ] + TAIL
 
 OBLIGATIONS = {
-    'IndexData::type_as_u32': ['C01', 'C14'],
-    'IndexHeader::write': ['C01', 'C14'],
-    'IndexEntry::write_index': ['C01', 'C14'],
-    'Header::write': ['C01', 'C14'],
+    'IndexData::type_as_u32': ['C01', 'C14', 'C03', 'C02', 'C10', 'C08'],
+    'IndexHeader::write': ['C01', 'C14', 'C03', 'C02', 'C10', 'C08'],
+    'IndexEntry::write_index': ['C01', 'C14', 'C03', 'C02', 'C10', 'C08'],
+    'Header::write': ['C01', 'C14', 'C03', 'C02', 'C10', 'C08'],
     'Header::padding_required': ['C01', 'C14'],
     'Header::write_signature': ['C01', 'C14', 'C09'],
     'Lead::write': ['C01', 'C14'],
     'PackageMetadata::write': ['C01', 'C14'],
     'Package::write': ['C01', 'C14'],
-    'lemma_entries_onto_grow': ['C01', 'C14'],
-    'lemma_entries_onto_len': ['C01', 'C14'],
-    'lemma_entries_onto': ['C01', 'C14'],
-    'lemma_header_onto': ['C01', 'C14'],
-    'lemma_header_onto_grow': ['C01', 'C14'],
-    'lemma_ih_onto_grow': ['C01', 'C14'],
-    'lemma_entry_onto_grow': ['C01', 'C14'],
+    'lemma_entries_onto_grow': ['C01', 'C14', 'C03', 'C02', 'C10', 'C08'],
+    'lemma_entries_onto_len': ['C01', 'C14', 'C03', 'C02', 'C10', 'C08'],
+    'lemma_entries_onto': ['C01', 'C14', 'C03', 'C02', 'C10', 'C08'],
+    'lemma_header_onto': ['C01', 'C14', 'C03', 'C02', 'C10', 'C08'],
+    'lemma_header_onto_grow': ['C01', 'C14', 'C03', 'C02', 'C10', 'C08'],
+    'lemma_ih_onto_grow': ['C01', 'C14', 'C03', 'C02', 'C10', 'C08'],
+    'lemma_entry_onto_grow': ['C01', 'C14', 'C03', 'C02', 'C10', 'C08'],
     'lemma_lead_onto_grow': ['C01', 'C14'],
     'lemma_meta_onto_grow': ['C01', 'C14'],
-    'lemma_pre_trans': ['C01', 'C14'],
+    'lemma_pre_trans': ['C01', 'C14', 'C03', 'C02', 'C10', 'C08'],
     'c14_header_write_plain': ['C01', 'C14', 'C03', 'C02', 'C10', 'C08'],
     'c14_metadata_write_plain': ['C01', 'C14'],
 }
